@@ -407,6 +407,9 @@ func edgeOps() []op {
 		}},
 		{"send3 wf->x", 0, func() gen.Stmt { return sendN(U, "3", sa(wf), da("x")) }},
 		{"send* wf->x", 0, func() gen.Stmt { return sendAllS(U, sa(wf), da("x")) }},
+		{"send2 a->world", 0, func() gen.Stmt { return sendN(U, "2", sa("a"), da("world")) }},
+		{"send4 {a b}->{1/2 world, 1/2 x}", 0, func() gen.Stmt { return sendN(U, "4", lst(sa("a"), sa("b")), half("world", "x")) }},
+		{"send3 {a world}->x", 0, func() gen.Stmt { return sendN(U, "3", lst(sa("a"), sa("world")), da("x")) }},
 		{"save3 a", 0, func() gen.Stmt { return saveN(U, "3", "a") }},
 		{"save2 world", 0, func() gen.Stmt { return saveN(U, "2", "world") }},
 		// feeders
@@ -422,7 +425,7 @@ func edgeOps() []op {
 // b in {0,2}, world:fees in {0,6}.
 func runEdgeSeqSpace(w *mc.Worker, name string, minLen, maxLen int, body func(c *seqCase, bal env.Bal)) {
 	ops := edgeOps()
-	w.Stage(name, fmt.Sprintf("all sequences of %d..%d statements out of %d about edge relations (overdraft bound 0 / negative, an account paying itself, sources after a capped @world, an account named world:fees, saving exactly the balance) x sheets a in {0,3,5,-2}, b in {0,2}, world:fees in {0,6}", minLen, maxLen, len(ops)), func() {
+	w.Stage(name, fmt.Sprintf("all sequences of %d..%d statements out of %d about edge relations (overdraft bound 0 / negative, an account paying itself, sources after a capped @world, an account named world:fees, saving exactly the balance, postings INTO @world) x sheets a in {0,3,5,-2}, b in {0,2}, world:fees in {0,6}", minLen, maxLen, len(ops)), func() {
 		w.Outer(name+"/seq", 0, func(o *mc.Explorer) {
 			n := minLen + o.Choose(maxLen-minLen+1)
 			c := &seqCase{Prog: &gen.Program{}}
